@@ -46,3 +46,13 @@ claim("C04",
       "overwriting keyed inserts. Does not decide agreement with the host's canonicaliser or the hash arithmetic.",
       "Trusts hmac_sha256/hex crates, rustc MIR + extractor; the host's canonicaliser is not in the repository.",
       "DESIGN.md §5 C04")
+
+claim("C07",
+      "MIR post-dominance (consume-on-accept) + sibling agreement + field-write / type inventory",
+      "Decides that the audit record is consumed on every path following a successful lookup (same port value, same map, same key "
+      "constructor), that the identity fields of the per-connection context are written only by its single constructor site in the "
+      "per-connection task, that each request receives a clone of that object, and that no static or long-lived type can hold a "
+      "caller identity. Schedule-independence follows from the absence of shared identity state, not from exploring interleavings.",
+      "Trusts rustc MIR + extractor; behaviour when remove_audit itself fails, kernel-side reuse races and hyper's per-request "
+      "service invocation are not decided.",
+      "DESIGN.md §5 C07")
